@@ -175,6 +175,8 @@ def gen_program(tape, nreaders, lengths, bounds, label, ncalls, allow_lock):
             call["reads"] = [list(gen_offsets(tape, L, B, f"{label}.c{c}.m{i}", maxn=24))
                              for i in range(2 + tape.draw(2, f"{label}.c{c}.nm"))]
             call["reader2"] = tape.draw(nreaders, f"{label}.c{c}.reader2")
+            if tape.chance(1, 2, f"{label}.c{c}.same_range"):
+                call["reads"] = [call["reads"][0]] * len(call["reads"])   # same (o, n) from each reader
         elif kind == "roundtrip":
             ks = [0, L, tape.draw(L + 1, f"{label}.c{c}.k")]
             if B:
@@ -403,7 +405,12 @@ def run_files(ctx, faults=False):
     nread = 1 + tape.weighted([3, 1], "nreaders")
     fspecs, rss, models = [], [], []
     for i in range(nread):
-        fs = files.gen_file_spec(tape, label=f"f{i}")
+        if i == 1 and "seed" in fspecs[0] and tape.chance(1, 2, "f1.sibling"):
+            # a sibling: same class and geometry, different content
+            fs = dict(fspecs[0], seed=(fspecs[0]["seed"] + 1 + tape.draw(7, "f1.sibseed")) % 4096)
+            ctx.probe("sibling_readers_same_geometry")
+        else:
+            fs = files.gen_file_spec(tape, label=f"f{i}")
         rs = files.reader_spec(fs)
         m = get_model(pb, rs)
         m.boundaries = _boundaries(m, fs)
